@@ -1,5 +1,5 @@
 (* Properties_C09.v — C09: parse() accepts only well-formed in-range input. *)
-From CCTZ Require Import Base SrcConstants Cal CivilImpl PosixImpl ZoneLoad FormatImpl ParseImpl FmtSpec FmtProofs ParseProofs.
+From CCTZ Require Import Base SrcConstants Cal CivilImpl PosixImpl ZoneLoad FormatImpl ParseImpl FmtSpec ParseProofs.
 Local Open Scope Z_scope.
 
 (* ParseInt never wraps and never over-reads: a returned value is exactly the
